@@ -74,26 +74,35 @@ func (r *RedisError) IsNil() bool {
 
 // IsMoved checks if it is a redis MOVED message and returns the moved address.
 func (r *RedisError) IsMoved() (addr string, ok bool) {
-	if ok = strings.HasPrefix(r.string(), "MOVED"); ok {
-		addr = fixIPv6HostPort(strings.Split(r.string(), " ")[2])
+	if strings.HasPrefix(r.string(), "MOVED") {
+		return redirectAddr(r.string(), 2)
 	}
 	return
 }
 
 // IsAsk checks if it is a redis ASK message and returns ask address.
 func (r *RedisError) IsAsk() (addr string, ok bool) {
-	if ok = strings.HasPrefix(r.string(), "ASK"); ok {
-		addr = fixIPv6HostPort(strings.Split(r.string(), " ")[2])
+	if strings.HasPrefix(r.string(), "ASK") {
+		return redirectAddr(r.string(), 2)
 	}
 	return
 }
 
 // IsRedirect checks if it is a redis REDIRECT message and returns redirect address.
 func (r *RedisError) IsRedirect() (addr string, ok bool) {
-	if ok = strings.HasPrefix(r.string(), "REDIRECT"); ok {
-		addr = fixIPv6HostPort(strings.Split(r.string(), " ")[1])
+	if strings.HasPrefix(r.string(), "REDIRECT") {
+		return redirectAddr(r.string(), 1)
 	}
 	return
+}
+
+// redirectAddr returns the address found in the given space-separated field of a redirection message.
+// A message that does not carry that field is not a redirection that can be followed.
+func redirectAddr(msg string, field int) (addr string, ok bool) {
+	if parts := strings.Split(msg, " "); len(parts) > field && parts[field] != "" {
+		return fixIPv6HostPort(parts[field]), true
+	}
+	return "", false
 }
 
 func fixIPv6HostPort(addr string) string {
